@@ -61,4 +61,50 @@ def parse (useDepth : Bool) : Nat → Str → Option TRef
       else some (parseFlat s)
     | none => some (parseFlat s)
 
+/-- `ParseRef` / `PkgImportPathAndExpose`: both cut at the last `.` before the first `[` -/
+def cutIndex (s : Str) : Option Nat :=
+  let base := match indexOf? '[' s with
+    | some i => if i > 0 then s.take i else s
+    | none => s
+  match lastIndexOf? '.' base with
+  | some i => if i > 0 then some i else none
+  | none => none
+
+/-- `ParseRef`: package path and the *whole* rest (type arguments included) -/
+def parseRef (s : Str) : Option (Str × Str) := (cutIndex s).map fun i => (s.take i, s.drop (i + 1))
+
+/-- `PkgImportPathAndExpose` without the `/vendor/` cut: package path and bare name -/
+def pathAndExpose (s : Str) : Str × Str :=
+  let base := match indexOf? '[' s with
+    | some i => if i > 0 then s.take i else s
+    | none => s
+  match lastIndexOf? '.' base with
+  | some i => if i > 0 then (base.take i, base.drop (i + 1)) else ([], base)
+  | none => ([], base)
+
+/-- the part of `s` both functions look at: everything before the first `[` (at an index > 0) -/
+def baseOf (s : Str) : Str :=
+  match indexOf? '[' s with
+  | some i => if i > 0 then s.take i else s
+  | none => s
+
+/-- `strings.LastIndex(s, sub)` -/
+def lastIndexOfSub (sub : Str) : Str → Option Nat
+  | [] => if sub.isEmpty then some 0 else none
+  | c :: cs =>
+    match lastIndexOfSub sub cs with
+    | some i => some (i + 1)
+    | none => if sub.isPrefixOf (c :: cs) then some 0 else none
+
+/-- `gengo.ImportGoPath`: from the last `/vendor/` on (when it is not at index 0) -/
+def importGoPath (p : Str) : Str :=
+  match lastIndexOfSub "/vendor/".toList p with
+  | some i => if i > 0 then p.drop i else p
+  | none => p
+
+/-- `gengo.PkgImportPathAndExpose` -/
+def pkgImportPathAndExpose (s : Str) : Str × Str :=
+  let r := pathAndExpose s
+  (if r.1.isEmpty then [] else importGoPath r.1, r.2)
+
 end Gengo.TypeRef
